@@ -133,6 +133,8 @@ def load_families():
     F['error-late'] = lambda n: '- a\n' * n + '- [\n'
     F['plain-colon-words'] = lambda n: 'a:b ' * n
     F['hash-words'] = lambda n: 'a#b ' * n
+    F['merge-keys-interleaved'] = lambda n: '- &m {a: 1}\n- {' + ''.join('k%d: v, <<: *m, ' % i for i in range(n // 3)) + 'z: 0}\n'
+    F['merge-keys-many-block'] = lambda n: 'base: &m {a: 1}\nuse:\n' + ''.join('  k%d: v\n  <<: *m\n' % i for i in range(n // 4))
     F['alias-square'] = lambda n: '- &a [' + '1, ' * n + '2]\n' + '- *a\n' * n
     F['alias-map-square'] = lambda n: 'base: &a {' + ''.join('k%d: 1, ' % i for i in range(n)) + 'z: 0}\n' + ''.join('r%d: *a\n' % i for i in range(n))
     F['keyword-like-words'] = lambda n: '- yellow\n- name\n- title\n- fine\n- other\n- 1x\n- .x\n- ~x\n- =x\n- <x\n' * (n // 10)
